@@ -250,4 +250,28 @@ theorem full_inv_preserved {cs : CState} (h : CInv cs) (c : FullCmd) (hc : FullO
 example : (execStub ⟨[(1, .str [1])], [(1, 5)], 10, 0⟩ (.objectRefCount 1)) =
     (⟨[], [], 10, 0⟩, .noSuchKey) := by decide
 
+/-! ## `execute_readonly`
+
+The second read path (`execute_readonly(&self, …)`: GET, EXISTS, KEYS, PING — used by connection-level
+fast reads) cannot write by its type; what has to be PROVED is that it answers what `execute` answers,
+although it never drops a dead key and `execute` does. -/
+
+/-- `execute_readonly` and `execute` give the same reply (on every state with the invariant) -/
+theorem readonly_path_agrees {cs : CState} (h : CInv cs) (c : Cmd) (r : Reply)
+    (hr : cReadonly cs c = some r) : ∃ cs', execC cs c = some (cs', r) := by
+  cases c <;> simp only [cReadonly] at hr <;> try cases hr
+  case get k =>
+    refine ⟨(cGet cs k).1, ?_⟩
+    simp only [execC, cGet, getValue]
+    by_cases hx : isExpired cs k = true
+    · simp only [hx, if_true] at hr ⊢
+      cases hr; rfl
+    · have hx' : isExpired cs k = false := by simpa using hx
+      simp only [hx', Bool.false_eq_true, if_false] at hr ⊢
+      cases hv : NMap.get cs.data k with
+      | none => rw [hv] at hr; cases hr; rfl
+      | some v => rw [hv] at hr; cases v <;> cases hr <;> rfl
+  case «exists» ks => exact ⟨cs, rfl⟩
+  case keys => exact ⟨cs, rfl⟩
+
 end RedisVerif.C17Exec
